@@ -18,6 +18,7 @@ import (
 	"github.com/safing/portbase/database/accessor"
 	"github.com/safing/portbase/database/query"
 	"github.com/safing/portbase/database/record"
+	"github.com/safing/portbase/formats/dsd"
 	"github.com/tidwall/gjson"
 
 	"verifharness/hxlib"
@@ -144,6 +145,31 @@ func (g *caseGen) payload() []byte {
 		g.rng.Read(b)
 		return append([]byte{f}, b...)
 	case x < 17:
+		if g.rng.Intn(2) == 0 {
+			// the real codecs: CBOR / MsgPack / YAML / JSON encodings of an object, plain or gzip-wrapped
+			f := []uint8{dsd.CBOR, dsd.MsgPack, dsd.YAML, dsd.JSON}[g.rng.Intn(4)]
+			var b []byte
+			var err error
+			if g.rng.Intn(4) == 0 {
+				b, err = dsd.DumpAndCompress(g.jsonObj(0), f, dsd.GZIP)
+			} else {
+				b, err = dsd.Dump(g.jsonObj(0), f)
+			}
+			if err == nil && len(b) >= 2 {
+				g.r.Count("payload:real-codec")
+				return b
+			}
+		}
+		// dictionary values that mean something to some layer
+		g.r.Count("payload:dictionary")
+		if g.noModel && g.rng.Intn(3) == 0 {
+			// payloads with their own _meta member: the read side replaces it (implementation-only cases; the
+			// monitor compares content modulo _meta)
+			return []byte(g.pick("J{\"_meta\":{\"Key\":\"x\"}}", "J{\"_meta\":null,\"a\":1}", "J{\"a\":1,\"_meta\":5,\"b\":2}"))
+		}
+		return []byte(g.pick("J\xef\xbb\xbf{}", "Jnull", "J{", `J""`, "J\x1f\x8b\x08\x00", "J\x00", "J{}\x00", "J{\"a\":1}{\"b\":2}", "J[{}]", "JJ{}",
+			"J{\"a\":\"\\ud800\"}", "J{\"a\":1e400}", "J{\"\":0}", "J{\"a.b\":1,\"a\":{\"b\":2}}", "C\xa1aa\x01", "M\x81\xa1a\x01", "Ya: 1\n", "Z\x1f\x8b\x08", "L\x00", "\x01raw", "G\x00\x00"))
+	case x < 0:
 		return append([]byte{'C'}, compact(g.jsonObj(0))...) // JSON text under a non-JSON format byte
 	case x < 18:
 		return []byte(g.pick("", "J", "C", "{"))
@@ -473,6 +499,12 @@ func (g *caseGen) seqCase(emit func(hxlib.Case)) {
 		g.r.Count("db:" + d)
 	}
 	g.noWhere = g.rng.Intn(2) == 0
+	for _, d := range g.dbs {
+		if (d == "hmap" || d == "hmsd") && g.rng.Intn(3) == 0 {
+			g.keys = append(g.keys, d) // a key without colon: database name only, empty record key (hashmap accepts it)
+			g.r.Count("key:without-colon")
+		}
+	}
 	// seeds: records of every format and flag
 	for i, n := 0, g.rng.Intn(5); i < n; i++ {
 		k := g.freshKey()
@@ -500,7 +532,24 @@ func (g *caseGen) seqCase(emit func(hxlib.Case)) {
 		}
 	}
 	n := 12 + g.rng.Intn(28)
+	if g.rng.Intn(25) == 0 {
+		n = 100 + g.rng.Intn(150) // long-lived connection
+		g.r.Count("seq:long")
+	}
 	for i := 0; i < n; i++ {
+		if g.rng.Intn(16) == 0 {
+			// another (privileged) interface writes while subscriptions are live: all formats and flags
+			k := g.key()
+			if dn, dk := dbOfKey(k); kindOfDb[dn] != "" && dk != "" {
+				if g.rng.Intn(3) == 0 {
+					f := []byte{'C', 'M', 'Y', 'G', 1, 0}[g.rng.Intn(6)]
+					g.seed(k, f, []byte{1, 2, 3}, g.pick("", "s"))
+				} else {
+					g.seed(k, 'J', compact(g.jsonObj(0)), g.pick("", "", "s", "c", "sc", "x"))
+				}
+				g.r.Count("seed:mid-case")
+			}
+		}
 		op := g.newOp()
 		switch x := g.rng.Intn(100); {
 		case x < 16:
@@ -667,6 +716,22 @@ func (g *caseGen) fuzzCase(emit func(hxlib.Case), modelled bool) {
 			g.msg(b)
 		case x < 5:
 			g.msg(g.validMsg())
+		case x < 6:
+			// magnitude classes drawn uniformly by bit length: operation ID, key and payload sizes
+			big := func(maxBits int) string {
+				n := 1 << uint(g.rng.Intn(maxBits+1))
+				n += g.rng.Intn(n)
+				b := make([]byte, n)
+				for j := range b {
+					b[j] = "abcdefghij0123456789"[g.rng.Intn(20)]
+				}
+				return string(b)
+			}
+			k := g.dbs[0] + ":k" + big(10)
+			g.keys = append(g.keys, k)
+			g.r.Count("fuzz:size-classes")
+			g.msg(append(bars(big(9), g.pick("create", "update"), k, ""), append([]byte{'J'}, compact(map[string]any{"s1": big(16)})...)...))
+			g.msg(bars(big(9), "get", k))
 		default:
 			m := g.mutate(g.validMsg())
 			if !modelled || g.modelSafe(m) {
@@ -699,10 +764,14 @@ func (g *caseGen) modelSafe(m []byte) bool {
 
 func generate(r *hxlib.Run, emit func(hxlib.Case)) {
 	regressionCases(r, emit)
-	nSeq := r.Budget(1500, 40000)
-	nFuzz := r.Budget(500, 15000)
-	nConc := r.Budget(400, 12000)
+	nSeq := r.Budget(2400, 40000)
+	nFuzz := r.Budget(800, 15000)
+	nConc := r.Budget(700, 12000)
 	for i := 0; i < nSeq; i++ {
+		if crashes >= 8 {
+			r.Count("generation-stopped-after-8-dead-workers")
+			break // the verdict is settled; every further crash / wedge costs a worker restart or a timeout
+		}
 		newCase(r, "seq").seqCase(emit)
 		if i%3 == 0 && i/3 < nFuzz {
 			newCase(r, "fuzz").fuzzCase(emit, i%2 == 0)
